@@ -1,6 +1,7 @@
 """C08 ATT MTU negotiation bounds every PDU."""
 from .lib.match import *
 
+UNITS = lambda u: u in ('w_inst_att',) or u.startswith('t_att') or u.startswith('t_server')
 SELECT = r'^bluetoe::server::(l2cap_input|l2cap_output|handle_exchange_mtu_request)$|^bluetoe::server::connection_data::'
 
 
